@@ -384,9 +384,132 @@ def _check_mint_guard(R, F, f, c):
                     "the Authorization header is compared with the expected value by %s, which is not a whole-value equality (no length "
                     "comparison of its two inputs): a prefix or truncated header can be accepted" % k.split(":", 1)[1])
     reach = reachable_without_edges(f, true_edges)
-    R.ob(c.bb not in reach and kinds == {"allow_all", "eq"}, "MINT", c.where(), "MINT|guard|%s" % f.name,
-         "Authorized is minted on a path that passes neither `allow_all` nor `Authorization header == expected` (recognised guards: %s)" % sorted(kinds),
-         sample={"rule": "MINT guard", "fn": f.name, "true_edges": len(true_edges), "guards": sorted(kinds)})
+    ok_shape = c.bb not in reach and kinds == {"allow_all", "eq"}
+    detail = ""
+    if not ok_shape and not bad:
+        # decided by abstract execution instead of by the shape of the condition: however the open state is stored (a bool, an
+        # enum with an allow-all variant) and however the test is spelled, the mint must be reached exactly when the state has
+        # the value only `allow()` builds, or the whole-header equality holds
+        ok_abs, detail = _mint_guard_abstract(F, f, c)
+        if ok_abs:
+            ok_shape = True
+            kinds = {"allow_all", "eq"}
+    R.ob(ok_shape, "MINT", c.where(), "MINT|guard|%s" % f.name,
+         "Authorized is minted on a path that passes neither `allow_all` nor `Authorization header == expected` (recognised guards: %s)%s" % (sorted(kinds), (" [" + detail + "]") if detail else ""),
+         sample={"rule": "MINT guard", "fn": f.name, "true_edges": len(true_edges), "guards": sorted(kinds), "decided_by": "abstract execution" if detail == "abstract" else "guard edges"})
+
+
+def _open_state(F):
+    """(field name, value) of the authenticator state that means `accept everything`: the field of the aggregate `allow()` builds
+    whose value is the constant true or a payload-free enum variant; value is True or the variant name"""
+    allow = [f for f in F.fns.values() if f.name.endswith("HttpNonBlockingAuth::allow")]
+    if not allow:
+        return None
+    f = allow[0]
+    for b in f.blocks:
+        for s_ in b["stmts"]:
+            if s_["k"] == "assign" and s_["rv"]["k"] == "agg" and (s_["rv"].get("adt") or "").endswith("HttpNonBlockingAuth"):
+                for fld, op in zip(s_["rv"].get("fields", []), s_["rv"]["ops"]):
+                    v = origin(f, op)
+                    if v[0] == "const" and v[1] is True:
+                        return fld, True
+                    if v[0] == "agg" and "::" in v[1] and not v[2] and not v[1].startswith("std::option::Option"):
+                        return fld, v[1].split("::")[-1]
+    return None
+
+
+def _mint_guard_abstract(F, f, c):
+    import itertools
+    from terms import eval_term, subterms
+    st = _open_state(F)
+    if st is None:
+        return False, "open state not found in allow()"
+    sfield, open_value = st
+    fi = F.inlined(f)
+    mint_bbs = {bi for bi in range(len(fi.blocks)) if fi.prov(bi) == (f.id, c.bb)} or {c.bb}
+
+    def classify(d):
+        """('state', key, domain) | ('eq', key, [True, False]) | None for a switch discriminant term"""
+        x = d
+        while x[0] in ("ref", "deref", "cast"):
+            x = x[1]
+        inner = x[1] if x[0] == "discr" else x
+        base = inner
+        while base[0] in ("ref", "deref", "cast"):
+            base = base[1]
+        if base[0] == "field" and base[2] == "." + sfield and not mentions(base, "Authorization"):
+            if x[0] == "discr":
+                return ("state", show(base), [n for (n, v_) in (x[3] or [])], x)
+            return ("state", show(base), [True, False], x)
+        if x[0] == "call" and x[1].split("::")[-1] in ("eq", "ne") and len(x[2]) == 2:
+            a0, a1 = x[2]
+            cred = (mentions(a0, "Authorization") and mentions(a1, "self")) or (mentions(a1, "Authorization") and mentions(a0, "self"))
+            if cred:
+                gs = F.by_name.get(x[1]) or []
+                if gs and not _comparator_ok(F, gs[0]):
+                    return None
+                return ("eq", show(x), [True, False], x)
+        return None
+    atoms = {}
+    for b in range(len(fi.blocks)):
+        t = fi.term(b)
+        if t["k"] != "switch" or fi.is_cleanup(b):
+            continue
+        d = origin(fi, t["discr"])
+        k = classify(d)
+        if k is None:
+            continue          # decided (or not) by the values tracked along the path; checked after each run below
+        atoms[k[1]] = k
+    from terms import call_origin
+    for cc in fi.calls():
+        if fi.is_cleanup(cc.bb) or (cc.method or "") not in ("eq", "ne"):
+            continue
+        k = classify(call_origin(fi, cc.t, 0, frozenset(), 40))
+        if k is not None:
+            atoms[k[1]] = k
+    kinds = {k[0] for k in atoms.values()}
+    if kinds != {"state", "eq"} or len(atoms) != 2:
+        return False, "decision atoms: %s" % sorted(k[0] + ":" + k[1][:40] for k in atoms.values())
+    names = sorted(atoms)
+    for combo in itertools.product(*[atoms[n][2] for n in names]):
+        asg = dict(zip(names, combo))
+
+        def env_of(t, asg=asg):
+            x = t
+            while x[0] in ("ref", "deref", "cast"):
+                x = x[1]
+            for n in names:
+                kind, key, dom, term = atoms[n]
+                if kind == "eq" and x[0] == "call" and show(x) == key:
+                    v = asg[n]
+                    return v if x[1].split("::")[-1] == "eq" else (not v)
+                if kind == "state":
+                    if x[0] == "discr" and show(x[1] if x[1][0] not in ("ref", "deref") else x[1]) and show(_strip_rd(x[1])) == key:
+                        for (nm, val) in (x[3] or []):
+                            if nm == asg[n]:
+                                return val
+                    if x[0] == "field" and show(x) == key and isinstance(asg[n], bool):
+                        return asg[n]
+            return None
+        from terms import explore_under
+        rets, visited = explore_under(fi, env_of)
+        for ub in getattr(explore_under, "undecided", ()):
+            # a switch the assignment leaves open must not separate the mint from the entry
+            succs = [sx for sx in fi.succ(ub) if fi.term(sx)["k"] != "unreachable"]
+            r_ = [any(mb in fi.reachable(sx) for mb in mint_bbs) for sx in succs]
+            if any(r_) and not all(r_):
+                return False, "the mint also depends on `%s`" % show(origin(fi, fi.term(ub)["discr"]))[:80]
+        reached = any(mb in visited for mb in mint_bbs)
+        want = any((atoms[n][0] == "state" and asg[n] == open_value) or (atoms[n][0] == "eq" and asg[n] is True) for n in names)
+        if reached != want:
+            return False, "with %s the mint is %sreached" % ({atoms[n][0]: asg[n] for n in names}, "" if reached else "not ")
+    return True, "abstract"
+
+
+def _strip_rd(t):
+    while t[0] in ("ref", "deref", "cast"):
+        t = t[1]
+    return t
 
 
 def _check_allow(R, F):
@@ -402,6 +525,15 @@ def _check_allow(R, F):
                 if s["k"] == "assign" and s["rv"]["k"] == "agg" and (s["rv"].get("adt") or "").endswith("HttpNonBlockingAuth"):
                     fields = s["rv"].get("fields", [])
                     ops = s["rv"]["ops"]
+                    st_ = _open_state(F)
+                    if "allow_all" not in fields and st_ is not None and st_[0] in fields:
+                        # the open state stored otherwise (an enum with an accept-everything variant): that value is built in allow() only
+                        v = origin(f, ops[fields.index(st_[0])])
+                        is_open = (v[0] == "const" and v[1] is True and st_[1] is True) or (v[0] == "agg" and v[1].split("::")[-1] == st_[1])
+                        copied = f.j.get("trait") == "std::clone::Clone"
+                        known = v[0] in ("const", "agg")
+                        R.ob((known and not is_open) or f.id == aid or copied, "MINT", f.where(), "MINT|allow_all|%s" % f.name,
+                             "HttpNonBlockingAuth{%s: %s} constructed in %s" % (st_[0], show(v)[:60], f.name))
                     if "allow_all" in fields:
                         v = origin(f, ops[fields.index("allow_all")])
                         is_true = v[0] == "const" and v[1] is True
